@@ -274,3 +274,41 @@ func VH_C11_concurrent_senders() {
 	vrtAssert(pos[1] < pos[2], "per-sender-order-on-the-wire")
 	vrtReach("all-written")
 }
+
+// VH_C11_frames_large: frames whose size is around the connection reader's
+// buffer (4096 bytes) and a multiple of it: a big frame followed by a small
+// one, everything available at once, so the reads are cut by the buffer size
+// (inside the length prefix of the second frame, inside its body, exactly
+// between the two). Both bodies arrive intact, in order.
+func VH_C11_frames_large() {
+	lens := []int{4000, 4083, 4084, 4085, 4086, 4087, 4088, 4089, 4090, 4091, 4092, 4093, 4096, 4100, 8180, 8190, 8200}
+	l1 := lens[vrtChoose(len(lens))]
+	b1 := make([]byte, l1)
+	for i := range b1 {
+		b1[i] = byte(1 + i%200)
+	}
+	b1[1], b1[l1-1] = vrtUint8(), vrtUint8()
+	b2 := []byte{2, vrtUint8(), vrtUint8()}
+	stream := append(vhFrame(b1, false), vhFrame(b2, true)...)
+	conn := &vhConn{stream: stream, partials: 0, cut: -1}
+	h := &vhHandler{}
+	c := &tcpConnectionActor{conn: conn, codec: vhFrameCodec{}, envelopHandler: h, advertiseAddr: "peer:1"}
+	ctx := &vhCtx{ref: &vhRef{"l:1", "/conn"}, stream: &vhStream{}}
+	vhDrive(c, ctx, 16)
+	vrtAssert(len(h.got) == 2, "every-frame-delivered")
+	for i, want := range [][]byte{b1, b2} {
+		if i < len(h.got) {
+			g, ok := h.got[i].msg.(*vhBody)
+			vrtAssert(ok && len(g.B) == len(want), "delivered-intact-in-order")
+			if ok && len(g.B) == len(want) {
+				for j := range want {
+					vrtAssert(g.B[j] == want[j], "delivered-intact-in-order")
+				}
+			}
+		}
+	}
+	if len(h.got) == 2 {
+		vrtAssert(!h.got[0].system && h.got[1].system, "system-flag-survives")
+	}
+	vrtReach("large-frames")
+}
